@@ -338,7 +338,11 @@ func (x *Exec) CallFunc(name string, args []Value) Value {
 	for i, a := range args {
 		la[i] = clean(a)
 	}
-	return x.call(nil, f, la).v
+	r := x.call(nil, f, la)
+	if r.poison != nil {
+		x.ub("poison-result", "function @"+name+" returns a poison value", r.poison)
+	}
+	return r.v
 }
 
 func (x *Exec) call(caller *frame, f *Func, args []lval) lval {
@@ -906,3 +910,6 @@ func fpOutOfRange(a *smt.Term, w int, signed bool) *smt.Term {
 	}
 	return smt.OrAll(nan, inf, lo, hi)
 }
+
+// FPOutOfRange is exported for the translation-validation driver.
+func FPOutOfRange(a *smt.Term, w int, signed bool) *smt.Term { return fpOutOfRange(a, w, signed) }
